@@ -12,11 +12,11 @@ core.import_dfols()
 PROP = "C08"
 LEVEL = "fault_enumeration"
 KINDS = ["nan", "inf", "-inf", "big", "raise"]
-RULE = ("Fault enumeration. A committed catalogue of 13 scenarios (plain, bounds, scaled, one and two projections, "
-        "regression npt=2n+1, growing, soft restart, hard restart with and without old r_k, averaging x2, regulariser); "
+RULE = ("Fault enumeration. A committed catalogue of 14 scenarios (plain, bounds, scaled, one and two projections, "
+        "regression npt=2n+1, growing, soft restart, hard restart with and without old r_k, averaging x2, regulariser, growing + soft restart); "
         "for each a fault-free reference run gives nf and then EVERY evaluation index k=1..nf x EVERY fault kind "
-        "{NaN, +inf, -inf, 1e200, raised exception} is executed (all components faulty; thorough adds one-component and "
-        "'every evaluation >= k' variants) - exhaustive inside the catalogue. In addition Hypothesis generates scenarios "
+        "{NaN, +inf, -inf, 1e200, raised exception} is executed (all components faulty, plus 'every evaluation >= k' for k <= 3; thorough adds one-component variants "
+        "and 'every evaluation >= k' for every k) - exhaustive inside the catalogue. In addition Hypothesis generates scenarios "
         "over the C02/C03 space (plus throw_error_on_nans) with a drawn (k, kind, component, sticky) fault. "
         "Non-trivial = the faulty evaluation is not the first evaluation of x0 (roles x0-resample/init/main/after-restart "
         "are in the class histogram). Distinct = distinct (scenario, k, kind, component, sticky) tuples.")
@@ -51,6 +51,7 @@ CATALOGUE = [
     ("averaging-const", mk(2, "hashed", nsamples={"const": 2}, maxfun=36)),
     ("averaging-table", mk(2, "sinlin", nsamples={"table": [[1, 2, 3], [2, 1, 1]]}, noise={"seed": 5, "mult": 1e-2, "add": 1e-3}, maxfun=36)),
     ("regulariser", mk(2, "lin", reg={"kind": "l1", "lam": 0.1, "conv": "closure"}, maxfun=12, up={"func_tol.max_iters": 25})),
+    ("growing-soft-restart", mk(3, "hashed", up={"growing.ndirs_initial": 1, "restarts.use_restarts": True}, noise_flag=True, rhoend=1e-2, maxfun=30)),
 ]
 
 GEN_PROF = sc.make_prof(fams=["lin", "sinlin", "hashed", "script", "rosen"], nmax=3, mmax=4,
@@ -76,6 +77,8 @@ def enumerate_cases(tier):
                 out.append({"scen": scen, "name": name, "k": k, "kind": kind, "comp": "all", "sticky": False, "nf_ref": nf})
                 if tier == "thorough" and kind != "raise":
                     out.append({"scen": scen, "name": name, "k": k, "kind": kind, "comp": 0, "sticky": False, "nf_ref": nf})
+                if kind != "raise" and (tier == "thorough" or k <= 3):
+                    # 'at all of them': every evaluation from k on is bad (quick tier: from the very start only)
                     out.append({"scen": scen, "name": name, "k": k, "kind": kind, "comp": "all", "sticky": True, "nf_ref": nf})
     return out
 
